@@ -2405,6 +2405,11 @@ type delegationMatch struct {
 	key      uint64
 }
 
+// sameZone reports whether a cached delegation's servers are those of zone.
+func sameZone(servers *authority.Servers, zone string) bool {
+	return servers != nil && strings.EqualFold(servers.Zone, zone)
+}
+
 func (r *Resolver) searchCache(q dns.Question, cd bool, origin string) delegationMatch {
 	if q.Qtype == dns.TypeDS {
 		// DS queries are answered by parent zone, move up one label
@@ -2420,6 +2425,13 @@ func (r *Resolver) searchCache(q dns.Question, cd bool, origin string) delegatio
 	key := cache.Key(q, cd)
 
 	ns, err := r.delegations.Get(key)
+	if err == nil && !sameZone(ns.Servers, q.Name) {
+		// The key is a 64-bit hash of the question; two zone names with the
+		// same hash can be computed. The entry says which zone it is for: a
+		// delegation of another zone is a miss here, as a colliding entry is
+		// in the answer cache.
+		err = cache.ErrCacheNotFound
+	}
 
 	if err == nil {
 		if atomic.LoadUint32(&ns.Servers.ErrorCount) >= 10 {
@@ -3974,7 +3986,7 @@ func (r *Resolver) processDelegation(ctx context.Context, rs *resolveState, resp
 	// it under CD=1 instead — and a transient/unvalidated CD=1 delegation
 	// (client or internal NS/DS lookup) could then be served to CD=0 queries,
 	// silently stripping AD from a genuinely signed zone.
-	if cached, err := r.delegations.Get(key); err == nil {
+	if cached, err := r.delegations.Get(key); err == nil && sameZone(cached.Servers, q.Name) {
 		// Carry the CURRENT referral's deadline into the cached descent.
 		// The cached entry may hold a longer lease than the referral we just
 		// observed (e.g. it was inserted before the parent shortened its NS
